@@ -10,7 +10,9 @@ NValues == Len(Values)
 ValueSet == {Values[k] : k \in 1..NValues}
 
 \* format NORMAL  " {indicator} {message}"
-Frame(c, m) == <<" ", Values[(c % NValues) + 1], " ">> \o m
+\* with the indicator values vals (constructor argument `values`; Values is the default)
+FrameV(vals, c, m) == <<" ", vals[(c % Len(vals)) + 1], " ">> \o m
+Frame(c, m) == FrameV(Values, c, m)
 EraseOps == <<OpCR, OpEL(2)>>               \* "\r\x1b[2K", one write
 FrameOps(f) == <<OpText(f)>>
 LFOps == <<OpLF>>
@@ -22,14 +24,14 @@ MsgsOf(c) == {c.start, c.end} \cup {c.body[k].m : k \in {j \in 1..Len(c.body) : 
              \cup {c.prev[k] : k \in 1..Len(c.prev)}
 \* a row shows exactly one frame: blank, one indicator value, blank, one of the messages  (trailing blanks aside)
 \* (a not decorated output - mode "plain" - shows the documented format without indicator: blank, message)
-IsOneFrame(row, msgs, mode) ==
+IsOneFrame(row, msgs, mode, vals) ==
   IF mode = "plain" THEN \E m \in msgs : RTrim(row) = RTrim(<<" ">> \o m)
-  ELSE \E v \in ValueSet, m \in msgs : RTrim(row) = RTrim(<<" ", v, " ">> \o m)
+  ELSE \E k \in 1..Len(vals), m \in msgs : RTrim(row) = RTrim(<<" ", vals[k], " ">> \o m)
 \* no row of the terminal shows anything but nothing or one frame
-NoMixT(t, msgs, mode) == \A k \in 1..Len(t.rows) : RTrim(t.rows[k]) = <<>> \/ IsOneFrame(t.rows[k], msgs, mode)
+NoMixT(t, msgs, mode, vals) == \A k \in 1..Len(t.rows) : RTrim(t.rows[k]) = <<>> \/ IsOneFrame(t.rows[k], msgs, mode, vals)
 \* the last thing on the screen is a frame with the end message, and nothing has been drawn behind it: the row the
 \* cursor is left on (after the line end that closes the indicator's line) is blank and lies below that frame
 \* r0 = the row the cursor was on when THIS run began: the frame must have been drawn by this run, not be a leftover
-EndFrameT(t, end, mode, r0) == LET s == Screen(t) IN /\ s # <<>> /\ IsOneFrame(s[Len(s)], {end}, mode) /\ Len(s) >= r0
+EndFrameT(t, end, mode, r0, vals) == LET s == Screen(t) IN /\ s # <<>> /\ IsOneFrame(s[Len(s)], {end}, mode, vals) /\ Len(s) >= r0
                                            /\ t.r > Len(s) /\ RTrim(t.rows[t.r]) = <<>>
 =============================================================================
